@@ -701,3 +701,112 @@ func init() {
 		},
 	})
 }
+
+func init() {
+	register(&Rule{
+		ID: "metriclog.seconds-compared-with-seconds", Props: []string{"C17"}, Floor: 2,
+		Doc: "the index file and the searcher's cached position are kept in seconds, the query interface in milliseconds. Every comparison of the cached second (cachedPos.curSecInIdx) or of a second read from the index file has a seconds value on the other side: a millisecond quantity divided by 1000, another second from the index / cache, or a parameter that receives such a value at every call site. A millisecond value compared with a second is always larger, which silently disables the 'query begins before the cached position' guard",
+		Run: func(c *Ctx) {
+			n := 0
+			for _, f := range c.P.ModuleFuncs() {
+				if f.Pkg == nil || !strings.HasSuffix(f.Pkg.Pkg.Path(), mlPkg) || isTestOrExample(f) {
+					continue
+				}
+				if f.Signature.Recv() == nil || !strings.Contains(f.Signature.Recv().Type().String(), "DefaultMetricSearcher") {
+					continue
+				}
+				// locals filled from the index file
+				idxLocals := map[*ssa.Alloc]bool{}
+				for _, ci := range callsIn(f) {
+					if isExtCall(ci, "encoding/binary.Read") && len(ci.Common().Args) == 3 {
+						if al, ok := stripConv(ci.Common().Args[2]).(*ssa.Alloc); ok && strings.Contains(strings.ToLower(al.Comment), "sec") {
+							idxLocals[al] = true
+						}
+					}
+				}
+				var isSec func(v ssa.Value, d int) bool
+				isSec = func(v ssa.Value, d int) bool {
+					if d > 3 {
+						return false
+					}
+					switch x := v.(type) {
+					case *ssa.BinOp:
+						if x.Op == token.QUO {
+							if k, ok := constInt(x.Y); ok && k == 1000 {
+								return true
+							}
+						}
+					case *ssa.UnOp:
+						if x.Op == token.MUL {
+							if al, ok := x.X.(*ssa.Alloc); ok {
+								if idxLocals[al] {
+									return true
+								}
+								if sv := allocSingleStore(al); sv != nil {
+									return isSec(sv, d+1)
+								}
+							}
+							if strings.HasSuffix(accessPath(x), ".curSecInIdx") {
+								return true
+							}
+						}
+					case *ssa.Phi:
+						for _, e := range x.Edges {
+							if !isSec(e, d+1) {
+								return false
+							}
+						}
+						return true
+					case *ssa.Parameter:
+						fn := x.Parent()
+						idx := -1
+						for i, p := range fn.Params {
+							if p == x {
+								idx = i
+							}
+						}
+						callers := c.P.StaticCallers(fn)
+						if len(callers) == 0 || idx < 0 {
+							return false
+						}
+						for _, cs := range callers {
+							if idx >= len(cs.Common().Args) || !isSec(cs.Common().Args[idx], d+1) {
+								return false
+							}
+						}
+						return true
+					}
+					return false
+				}
+				isSecSide := func(v ssa.Value) bool {
+					if u, ok := v.(*ssa.UnOp); ok && u.Op == token.MUL {
+						if al, ok := u.X.(*ssa.Alloc); ok && idxLocals[al] {
+							return true
+						}
+						return strings.HasSuffix(accessPath(u), ".curSecInIdx")
+					}
+					return false
+				}
+				eachInstr(f, func(ins ssa.Instruction) {
+					b, ok := ins.(*ssa.BinOp)
+					if !ok || !isComparison(b.Op) {
+						return
+					}
+					var other ssa.Value
+					if isSecSide(b.X) {
+						other = b.Y
+					} else if isSecSide(b.Y) {
+						other = b.X
+					} else {
+						return
+					}
+					n++
+					c.Check(isSec(other, 0), fmt.Sprintf("%s / second-comparison#%d", fnKey(f), n), b.Pos(), "%s is compared with a seconds value (%s)", accessPath(b), accessPath(other))
+				})
+			}
+			if n == 0 {
+				c.Violate(mlPkg+" / second-comparisons", token.NoPos, "no comparison of index seconds found in the searcher")
+			}
+		},
+	})
+}
